@@ -187,6 +187,43 @@ def run_generic_instances(ctx):
     m.close()
 
 
+def run_time_representations(ctx):
+    """dates, times and datetimes in every position, handed to the generated Python writer in each representation it accepts (yardl.DateTime / Time,
+    datetime.datetime / datetime.time, numpy.datetime64 / timedelta64 in ns and in coarser units): the instant written is the instant given. Values
+    before and after 1970, with and without a fractional second, at the limits of the nanosecond range."""
+    dt, tm, da, st = P("datetime"), P("time"), P("date"), P("string")
+    rec = Rec("TrRec", [("d", da), ("t", tm), ("dt", dt), ("odt", Opt(dt)), ("vdt", V(dt)), ("vt", V(tm, 2)), ("m", M(st, dt)), ("u", U((("t", tm), ("dt", dt), ("d", da)), False, True))])
+    pkg = Pkg("TimeRepr", [rec, Proto("TrP", [("first", dt), ("moments", S(dt)), ("times", S(tm)), ("days", S(da)), ("recs", S(N("TrRec"))), ("last", Opt(dt))])])
+    m = rt.prepare_model(ctx, "timerepr", pkg, ["plain"])
+    if m is None:
+        raise common.Inconclusive("time-representation model did not build")
+    c = m.codec
+    proto = pkg.find("TrP")
+    S_, MS, US = 10 ** 9, 10 ** 6, 10 ** 3
+    moments = [0, 1, -1, US, -US, -999999 * US, -1000001 * US, -S_, -S_ - 500 * MS, -86400 * S_ + 250 * MS, -86400 * S_ - 1 * US, 1500 * MS, -1500 * MS, 86399 * S_ + 999999 * US,
+               -2208988800 * S_ + 123456 * US, -2208988800 * S_ - 123456 * US, 1700000000 * S_ + 987654 * US, 1700000000 * S_ + 987654321, -(2 ** 62), 2 ** 62, -(2 ** 63) + 1000 * S_, 2 ** 63 - 1 - 1000 * S_,
+               -6857222400 * S_ + 1 * US, 253402300799 * S_ // 100, -6857222400 * S_ - 999999 * US, -S_ + 1, -S_ - 1, 7 * US + 1]
+    times = [0, 1, US, 999999 * US, 86399 * S_ + 999999 * US, 86399 * S_ + 999999999, 12 * 3600 * S_, 3661 * S_ + 1001 * US, 43200 * S_ + 1]
+    days = [0, 1, -1, -25567, 19000, -141427, 2932896, -719162]
+    for k in range(3):
+        r = rng("C01tr", k)
+        mo = moments[k::3] + [r.choice(moments) for _ in range(3)]
+        recs = []
+        for j, x in enumerate(mo):
+            u = [(0, times[j % len(times)]), (1, x), (2, days[j % len(days)])][j % 3]
+            recs.append([days[j % len(days)], times[(j + k) % len(times)], x, (None if j % 4 == 0 else (0, moments[(j * 5 + k) % len(moments)])), [moments[(j + i) % len(moments)] for i in range(j % 3)],
+                         [times[j % len(times)], times[(j + 1) % len(times)]], [("k%d" % i, moments[(j * 3 + i) % len(moments)]) for i in range(j % 3)], u])
+        vals = [moments[(7 * k + 2) % len(moments)], mo, times[k::2], days[k::2], recs, (None if k == 0 else (0, moments[-1 - k]))]
+        data = c.encode_stream(proto, m.schema("TrP"), vals)
+        ctx.case(("time-representations", k))
+        for ep in (rt.PyEndpoint(m), rt.PyEndpoint(m, mode="altrepr"), rt.PyEndpoint(m, mode="list"), rt.CppEndpoint(m, "plain")):
+            res = ep.copy("TrP", "bin", "bin", data)
+            ctx.ev()
+            ctx.count("time-representations." + ep.name)
+            rt.judge(ctx, m, proto, vals, data, res, ep.name, "bin", "dates / times / datetimes set %d through %s" % (k, ep.name), {"time_representations": True})
+    m.close()
+
+
 def run_wide(ctx, flavors):
     """shapes whose *size* crosses an encoding boundary: a union with 130 alternatives (tags >= 128 need two varint bytes), also nullable
     (tag shifted by one), as a step, as stream items and as vector elements"""
@@ -243,6 +280,7 @@ def run(ctx):
     run_wide(ctx, ["plain"])
     run_retained(ctx)
     run_generic_instances(ctx)
+    run_time_representations(ctx)
     cxx.prune_cache()
 
 
